@@ -376,6 +376,62 @@ func (p *Pending) Finish(steer []byte) (Result, int64) {
 	return p.res, gateNs
 }
 
+// BurstRes is what one of several simultaneously completing connections did.
+type BurstRes struct {
+	OK      bool
+	Class   string
+	Wire    []byte
+	Closes  int
+	Blocked bool
+}
+
+// BurstOf runs one WrapConn per blob on the same factory; every conn gets all but the last byte
+// first, and the last bytes are released at the same instant (spin barrier) once all endpoints
+// sit in Read waiting for them. The random tape is not steered (draws interleave).
+func BurstOf(sf base.ServerFactory, blobs [][]byte) (out []BurstRes, h0, h1 int64) {
+	WrapMu.Lock()
+	defer WrapMu.Unlock()
+	o4h.Tape.Steer = nil
+	h0 = o4h.Hour()
+	n := len(blobs)
+	out = make([]BurstRes, n)
+	var wg sync.WaitGroup
+	gate := make(chan struct{})
+	var spin int32
+	conns := make([]*Conn, n)
+	for i := 0; i < n; i++ {
+		blob := blobs[i]
+		c := NewConn([]Step{{K: "c", B: blob[:len(blob)-1]}, {K: "g"}, {K: "c", B: blob[len(blob)-1:]}})
+		c.Gate = gate
+		c.Spin = &spin
+		conns[i] = c
+		wg.Add(1)
+		go func(i int) {
+			defer wg.Done()
+			_, err := sf.WrapConn(c)
+			out[i].OK = err == nil
+			out[i].Class = o4h.ErrClass(err)
+		}(i)
+	}
+	for _, c := range conns {
+		<-c.AtGate
+	}
+	close(gate)
+	time.Sleep(200 * time.Microsecond)
+	atomic.StoreInt32(&spin, 1)
+	wg.Wait()
+	for i, c := range conns {
+		out[i].Wire = c.ScriptConn.TakeWritten()
+		for _, e := range c.ScriptConn.EventsCopy() {
+			if e.Kind == "close" {
+				out[i].Closes++
+			}
+		}
+	}
+	h1 = o4h.Hour()
+	return
+}
+
 // Render prints the Go-side trace with offsets.
 func (r Result) Render() string {
 	var sb strings.Builder
